@@ -426,3 +426,73 @@ Definition observe_scn (p : pattern) (two : bool) (s : st) : list nat :=
 Definition handle_alive (p : pattern) (two : bool) (k : nat) (s : st) : bool :=
   let '(_, H) := scenario p two in alive s (nth k H 0).
 Definition nslots (p : pattern) (two : bool) : nat := List.length (snd (scenario p two)).
+
+(* ---------- request-response, two requests of one client in flight (harness family reqres2) ----------
+   slots: node svc client server pending_b pending_a response_b active_a active_b *)
+Definition scenario_rr2 : inst * list nat :=
+  let g : inst := [] in
+  let '(g, (n0, sns0)) := mk_node g in
+  let '(g, os) := mk_os_service g in
+  let '(g, (pf0, sst0)) := mk_service ReqRes g sns0 os in
+  let '(g, creq) := mk_os_connection g in
+  let '(g, cresp) := mk_os_connection g in
+  let '(g, (cl, css)) := mk_client g sns0 sst0 creq cresp in
+  let '(g, (sv, svs)) := mk_server g sns0 sst0 creq cresp in
+  let '(g, pb) := mk_pending_response g css in
+  let '(g, pa) := mk_pending_response g css in
+  let '(g, rb) := mk_response g css in
+  let '(g, aa) := mk_active_request g svs in
+  let '(g, ab) := mk_active_request g svs in
+  (g, [n0; pf0; cl; sv; pb; pa; rb; aa; ab]).
+
+(* ---------- a receiver and the connection of a sender that has gone away ----------
+   port/details/receiver.rs.  The edge Receiver -Owned-> receiver::Connection of the table is
+   DYNAMIC: when the sender disappears the receiver moves the connection (and with it the
+   mapping of the sender's data segment, DataSegmentView) to `to_be_removed_connections` and
+   releases it later.  What a survivor needs from it: a borrowed chunk (Sample / Response /
+   ActiveRequest holds a pointer into the segment) and, per channel, the delivered but not
+   yet received chunks.  A channel = (has_data, borrow_count).  The conditions are taken from
+   the generated table (own_decisions), as token text. *)
+Definition chan := (bool * nat)%type.
+Definition decision (site : string) : string :=
+  match filter (fun d => String.eqb (fst d) site) own_decisions with
+  | d :: _ => snd d
+  | [] => ""
+  end.
+(* `if has_data && has_borrows { break; }` -- any other text is not a known early exit *)
+Definition break_is_and : bool :=
+  String.eqb (decision "receiver_channels_have_data_or_borrows.break_if") "has_data && has_borrows".
+Definition break_is_or : bool :=
+  String.eqb (decision "receiver_channels_have_data_or_borrows.break_if") "has_data || has_borrows".
+Definition remove_if_no_borrows : bool :=
+  String.eqb (decision "receive_from_to_be_removed_connections.remove_if") "! has_borrows".
+Definition keep_if_data_or_borrows : bool :=
+  String.eqb (decision "prepare_connection_removal.keep_connection") "connection_has_data | connection_has_borrows".
+
+(* Receiver::receiver_channels_have_data_or_borrows: scan the channels in order, accumulate,
+   leave the loop early when the break condition holds.  brk = the early-exit test. *)
+Fixpoint scan_from (brk : bool -> bool -> bool) (chs : list chan) (d b : bool) : bool * bool :=
+  match chs with
+  | [] => (d, b)
+  | (cd, cb) :: r =>
+    let d' := d || cd in
+    let b' := b || Nat.ltb 0 cb in
+    if brk d' b' then (d', b') else scan_from brk r d' b'
+  end.
+Definition brk_code : bool -> bool -> bool :=
+  if break_is_and then andb else if break_is_or then orb else (fun _ _ => true).
+Definition scan (chs : list chan) : bool * bool := scan_from brk_code chs false false.
+
+(* Receiver::prepare_connection_removal: keep (as expired) iff data or borrows *)
+Definition keep_on_disconnect (chs : list chan) : bool :=
+  let '(d, b) := scan chs in if keep_if_data_or_borrows then d || b else false.
+
+(* Receiver::receive_from_to_be_removed_connections, one expired connection, a receive on
+   channel c with per-channel borrow limit m: *)
+Inductive expired_step := XSkip | XReceive | XKeep | XRemove.
+Definition poll_expired (chs : list chan) (c m : nat) : expired_step :=
+  let '(cd, cb) := nth c chs (false, 0) in
+  if Nat.eqb cb m then XSkip
+  else if cd then XReceive
+  else let '(_, b) := scan chs in
+       if remove_if_no_borrows then (if b then XKeep else XRemove) else XRemove.
